@@ -253,3 +253,101 @@ pub fn ne_get_b(v: &[f64], i: usize) -> f64 {
         None => 1.0,
     }
 }
+
+// ======================= second batch =======================
+
+// ---- bool::then + unwrap_or vs if/else
+pub fn eq_then_a(x: &[f64]) -> f64 {
+    if x.len() >= 2 {
+        x[0] + x[1]
+    } else {
+        0.0
+    }
+}
+pub fn eq_then_b(x: &[f64]) -> f64 {
+    (x.len() >= 2).then(|| x[0] + x[1]).unwrap_or(0.0)
+}
+
+// ---- mem::take and put back vs direct update
+pub fn eq_memtake_a(acc: &mut f64, x: f64) {
+    *acc = *acc * 0.5 + x;
+}
+pub fn eq_memtake_b(acc: &mut f64, x: f64) {
+    let old = std::mem::take(acc);
+    *acc = old * 0.5 + x;
+}
+
+// ---- function item vs closure
+pub fn eq_fnitem_a(xs: &[f64]) -> Vec<f64> {
+    xs.iter().map(|x| x.abs()).collect()
+}
+pub fn eq_fnitem_b(xs: &[f64]) -> Vec<f64> {
+    xs.iter().copied().map(f64::abs).collect()
+}
+
+// ---- nested guards vs conjunction
+pub fn eq_nested_a(a: bool, b: bool, x: f64, y: f64) -> f64 {
+    if a {
+        if b {
+            x
+        } else {
+            y
+        }
+    } else {
+        y
+    }
+}
+pub fn eq_nested_b(a: bool, b: bool, x: f64, y: f64) -> f64 {
+    if a && b {
+        x
+    } else {
+        y
+    }
+}
+
+// ---- map_or vs match
+pub fn eq_mapor_a(v: &[f64], i: usize) -> f64 {
+    match v.get(i) {
+        Some(&p) => p * 2.0,
+        None => -1.0,
+    }
+}
+pub fn eq_mapor_b(v: &[f64], i: usize) -> f64 {
+    v.get(i).map_or(-1.0, |&p| p * 2.0)
+}
+
+// ======================= must be told apart =======================
+
+pub fn ne_then_a(x: &[f64]) -> f64 {
+    (x.len() >= 2).then(|| x[0] + x[1]).unwrap_or(0.0)
+}
+pub fn ne_then_b(x: &[f64]) -> f64 {
+    (x.len() >= 2).then(|| x[0] + x[1]).unwrap_or(1.0)
+}
+
+// taken and not put back: the place keeps Default::default()
+pub fn ne_memtake_a(acc: &mut f64, x: f64) -> f64 {
+    let old = std::mem::take(acc);
+    *acc = old;
+    old + x
+}
+pub fn ne_memtake_b(acc: &mut f64, x: f64) -> f64 {
+    let old = std::mem::take(acc);
+    old + x
+}
+
+// the wrong side of map_or
+pub fn ne_mapor_a(v: &[f64], i: usize) -> f64 {
+    v.get(i).map_or(-1.0, |&p| p * 2.0)
+}
+pub fn ne_mapor_b(v: &[f64], i: usize) -> f64 {
+    v.get(i).map_or(-1.0, |&p| p * 3.0)
+}
+
+// checked_sub with the operands swapped
+pub fn ne_checked_sub_a(i: usize, d: usize) -> usize {
+    i.checked_sub(d).unwrap_or(0)
+}
+pub fn ne_checked_sub_b(i: usize, d: usize) -> usize {
+    d.checked_sub(i).unwrap_or(0)
+}
